@@ -453,6 +453,28 @@ sb_nest.by_index = True
 sb_nest_one.by_index = True
 sb_nest_two.by_index = True
 
+# Stream B generator 3: path re-use on one side (streamb_gen3.py, enumerated): vacate a path and re-occupy it, with the
+# 'uploaded, echo not yet taken in' schedules.  sb_reuse = every case (C01); sb_reuse_one = one-sided (C03);
+# sb_reuse_two = two-sided disjoint (C04); pairs first, then the 'modify first' core triples, then the rest.
+from . import streamb_gen3 as SB3
+
+
+def sb_reuse(i):
+    return SB3.case(i)
+
+
+def sb_reuse_one(i):
+    return SB3.one(i)
+
+
+def sb_reuse_two(i):
+    return SB3.two(i)
+
+
+sb_reuse.by_index = True
+sb_reuse_one.by_index = True
+sb_reuse_two.by_index = True
+
 
 def _mk_sb_runner(prop):
     def runner(case, monitor):
